@@ -115,25 +115,25 @@ Qed.
 Lemma seen_empty_nonce x now c : seen_once_locked [] x now c = (false, c).
 Proof. reflexivity. Qed.
 
-(** ** admit *)
+(** ** cache_admit *)
 Lemma admit_keeps n e n' t tol now c :
   lookup n c = Some e -> now <= e ->
-  lookup n (snd (admit n' t tol now c)) = Some e /\
-  (n' = n -> fst (admit n' t tol now c) = false).
+  lookup n (snd (cache_admit n' t tol now c)) = Some e /\
+  (n' = n -> fst (cache_admit n' t tol now c) = false).
 Proof.
-  intros H Hle. unfold admit.
+  intros H Hle. unfold cache_admit.
   destruct ((0 <? tol) && ((now - t <? - tol) || (tol <? now - t))).
   - simpl. split; [exact H | reflexivity].
   - apply seen_keeps; assumption.
 Qed.
 
 Lemma admit_true n t tol now c :
-  fst (admit n t tol now c) = true ->
+  fst (cache_admit n t tol now c) = true ->
   n <> [] /\ (0 < tol -> - tol <= now - t <= tol) /\
-  lookup n (snd (admit n t tol now c)) = Some (t + tol) /\
+  lookup n (snd (cache_admit n t tol now c)) = Some (t + tol) /\
   (forall e, lookup n c = Some e -> e < now).
 Proof.
-  unfold admit.
+  unfold cache_admit.
   destruct ((0 <? tol) && ((now - t <? - tol) || (tol <? now - t))) eqn:G; simpl; [discriminate|].
   intros Ht. repeat split.
   - intros ->. rewrite seen_empty_nonce in Ht. discriminate.
@@ -147,9 +147,9 @@ Qed.
 
 (** the cache after a refused tolerance test is untouched *)
 Lemma admit_out_of_window n t tol now c :
-  0 < tol -> (now - t < - tol \/ tol < now - t) -> admit n t tol now c = (false, c).
+  0 < tol -> (now - t < - tol \/ tol < now - t) -> cache_admit n t tol now c = (false, c).
 Proof.
-  intros Hp Hw. unfold admit.
+  intros Hp Hw. unfold cache_admit.
   assert (G : (0 <? tol) && ((now - t <? - tol) || (tol <? now - t)) = true).
   { apply andb_true_iff. split; [apply Z.ltb_lt; lia|]. apply orb_true_iff.
     destruct Hw; [left | right]; apply Z.ltb_lt; lia. }
